@@ -456,6 +456,8 @@ type Stats struct {
 	Infra          string
 	Outcomes       map[string]int64
 	MaxPreemptions int
+	Divergences    int64
+	LastDivergence string
 }
 
 var seenFree = map[string]bool{}
@@ -591,8 +593,17 @@ func Explore(opt Options, body func(x *X)) Stats {
 			}
 			x := runOne(body, it.choices, it.ns, opt.Horizon)
 			if x.Diverged != "" {
-				st.Infra = x.Diverged
-				return st
+				// nondeterminism the scheduler does not own (e.g. map iteration
+				// order in the code under test): retry, then give the subtree up
+				// and say so (the run is then not exhaustive)
+				for try := 0; try < 8 && x.Diverged != ""; try++ {
+					x = runOne(body, it.choices, it.ns, opt.Horizon)
+				}
+				if x.Diverged != "" {
+					st.Divergences++
+					st.LastDivergence = x.Diverged
+					continue
+				}
 			}
 			execs++
 			points += int64(len(x.Rec))
@@ -613,9 +624,14 @@ func Explore(opt Options, body func(x *X)) Stats {
 						seenFail[sig] = true
 						// determinism: the same schedule must fail the same way twice
 						ch := x.Choices()
-						y := runOne(body, ch, nil, opt.Horizon)
-						sig2, _ := y.verdict(&opt)
-						if sig2 != sig || fmt.Sprint(y.Trace) != fmt.Sprint(x.Trace) {
+						reproduced := false
+						sig2 := ""
+						for try := 0; try < 5 && !reproduced; try++ {
+							y := runOne(body, ch, nil, opt.Horizon)
+							sig2, _ = y.verdict(&opt)
+							reproduced = sig2 == sig && y.Diverged == ""
+						}
+						if !reproduced {
 							st.Infra = fmt.Sprintf("nondeterministic replay: schedule %v gave %q then %q", ch, sig, sig2)
 							return st
 						}
